@@ -486,7 +486,8 @@ class Interp:
             return self.inline(self.local_fns[d], [self.ev(a) for a in n["args"]], n)
         # a private helper of the crate (free function): evaluate its body in place, so that extracting a helper does not change the verdict
         cands = self.F.by_path.get(d, []) if hasattr(self.F, "by_path") else []
-        if len(cands) == 1 and not cands[0].get("impl_self") and self.inline_depth < 6:
+        if len(cands) == 1 and self.inline_depth < 6 and (not cands[0].get("impl_self") or
+                                                          ((cands[0].get("impl_self") or "") == (self.body.get("impl_self") or "") and not cands[0].get("impl_trait"))):
             return self.inline_here(cands[0], n["args"], n)
         raise Unsupported(n, "call of %s" % d)
 
@@ -598,6 +599,12 @@ class Interp:
         d = n.get("def", "")
         if d in self.local_fns:
             return self.inline(self.local_fns[d], [self.ev(n["recv"])] + [self.ev(a) for a in n["args"]], n)
+        # a private method of the same impl called on `self`: evaluate it in place (shared `self.*` fields), so that extracting a method is transparent
+        cands = self.F.by_path.get(d, []) if hasattr(self.F, "by_path") else []
+        rp = peel(n["recv"])
+        if len(cands) == 1 and rp.get("k") == "Local" and rp.get("name") == "self" and self.inline_depth < 6 \
+                and (cands[0].get("impl_self") or "") == (self.body.get("impl_self") or "") and not cands[0].get("impl_trait"):
+            return self.inline_here(cands[0], n["args"], n, recv_value=Opaque("self"))
         raise Unsupported(n, "method %s (%s)" % (name, d))
 
     # -- statements -----------------------------------------------------------------------------
